@@ -186,7 +186,6 @@ func c17Run(ctx *Ctx, idx int, seed uint64, profile string) {
 		n := r.Range(1, 3)
 		for k := 0; k < n; k++ {
 			so := fed.SafeOps()
-			so.NoIDVar = true // a client variable called `id` is the open C01/C02 finding variable-named-id, not a subscription matter
 			op := fed.GenOp(r, mr.Schema, data, "subscription", so)
 			if op == nil {
 				continue
